@@ -12,16 +12,18 @@ import (
 	"flag"
 	"fmt"
 	"io"
+	"net"
 	"runtime"
 	"sort"
 	"sync"
-	"syscall"
 	"sync/atomic"
+	"syscall"
 	"time"
 
 	"github.com/google/gopacket"
 	"github.com/v-byte-cpu/sx/pkg/packet"
 	"github.com/v-byte-cpu/sx/pkg/scan"
+	"github.com/v-byte-cpu/sx/pkg/scan/arp"
 	"verifharness/hlib"
 )
 
@@ -169,6 +171,10 @@ func (r *blockReader) ReadPacketData() ([]byte, *gopacket.CaptureInfo, error) {
 	return nil, nil, io.EOF
 }
 
+type noExclude struct{}
+
+func (noExclude) Contains(net.IP) (bool, error) { return false, nil }
+
 type noWait struct{}
 
 func (noWait) Take() time.Time { return time.Now() }
@@ -213,7 +219,16 @@ func runCase(idx int, class string, n, cap int, reqs []req, cancelAt int, slow b
 	}()
 	ctx, cancel := context.WithCancel(context.Background())
 	defer cancel()
-	src := scan.NewPacketSource(&scriptGen{reqs, cap}, scan.NewPacketMultiGenerator(filler, n))
+	// the request decorators the commands put in front of the packet generators (exclusion filter, ARP-cache stage):
+	// none / cache stage / filter + cache stage; a request that carries an error stays one failed request
+	var gen scan.RequestGenerator = &scriptGen{reqs, cap}
+	switch (idx / 2) % 3 {
+	case 1:
+		gen = arp.NewCacheRequestGenerator(gen, net.HardwareAddr{2, 0, 0, 0, 0, 1}, arp.NewCache())
+	case 2:
+		gen = arp.NewCacheRequestGenerator(scan.NewFilterIPRequestGenerator(gen, noExclude{}), net.HardwareAddr{2, 0, 0, 0, 0, 1}, arp.NewCache())
+	}
+	src := scan.NewPacketSource(gen, scan.NewPacketMultiGenerator(filler, n))
 	var pw packet.Writer = writer
 	if idx%2 == 1 {
 		// every other run: through the real rate-limit wrapper (as with --rate), limiter without waiting
@@ -332,7 +347,12 @@ func main() {
 	cancels := flag.Int("cancel", 0, "number of cancel-at-k runs")
 	maxReq := flag.Int("maxreq", 1000, "max requests per run")
 	only := flag.Int("only", -1, "run only the case with this index (same seed, same script)")
+	buildfail := flag.Int("buildfail", 0, "N: requests per configuration through the real tcp/udp/icmp fillers, one in seven unbuildable")
 	flag.Parse()
+	if *buildfail > 0 {
+		runBuildFail(*out, *buildfail)
+		return
+	}
 	w := hlib.NewOut(*out)
 	defer w.Close()
 	r := hlib.NewRand(*seed)
